@@ -4,6 +4,7 @@ unrolled), f64/f32 as outward-rounded intervals with a NaN flag, aggregates fiel
 opaque symbolic tags for everything the rule does not interpret.  An indefinite comparison forks the abstract path
 and refines the compared operands.  No library code is executed: the interpreter walks the MIR facts; external calls
 are given by transfer functions supplied by the rule (their contracts are listed in the evidence as assumptions)."""
+import re
 import math
 from math import inf, nextafter
 
@@ -294,6 +295,10 @@ class Interp:
         if 'raw' in o and ty.startswith('&') and o.get('raw_ty') in ('usize', 'u16', 'u32', 'u64', 'u8', 'i8', 'i16', 'i32', 'i64', 'isize', 'bool'):
             raw = bytes.fromhex(o['raw'])
             return ('refval', int.from_bytes(raw, 'little', signed=o['raw_ty'].startswith('i')), ())
+        if re.match(r'^&\[.*; 0\]$', ty or ''):
+            return ('refval', (), ())           # the empty array literal
+        if re.match(r'^\[.*; 0\]$', ty or ''):
+            return ()
         if 'str' in o:
             return o['str']
         if 'fn' in o:
@@ -1373,14 +1378,33 @@ def _items_of(I, st, x):
     raise Unsupported('items of %r' % (v,))
 
 
+def _range_from(I, st, x):
+    v = x
+    if isinstance(v, tuple) and v and v[0] in ('ref', 'refval', 'mref'):
+        v = I.deref(v, st)
+    if isinstance(v, dict) and v.get('#adt', '').endswith('RangeFrom') and isinstance(v.get('start'), int):
+        return v['start']
+    return None
+
+
 def h_zip(I, st, a, t, b):
-    xs, ys = _items_of(I, st, a[0]), None
+    # an unbounded counter zipped with a finite sequence counts its items
+    s0, s1 = _range_from(I, st, a[0]), _range_from(I, st, a[1])
+    if s0 is not None and s1 is None:
+        other = h_zip(I, st, [(), a[1]], t, b)['items']
+        return {'#iter': 'seq', 'items': tuple((s0 + k, y) for k, (_, y) in enumerate(other)), 'pos': 0}
+    if s1 is not None and s0 is None:
+        xs = _items_of(I, st, a[0])
+        return {'#iter': 'seq', 'items': tuple((x, s1 + k) for k, x in enumerate(xs)), 'pos': 0}
+    xs, ys = (_items_of(I, st, a[0]) if a[0] != () else None), None
     y = a[1]
     if isinstance(y, tuple) and y and y[0] in ('ref', 'refval', 'mref'):
         tgt = I.deref(y, st)
         ys = [('refval', e, ()) for e in tgt] if isinstance(tgt, (tuple, list)) else _items_of(I, st, tgt)
     else:
         ys = _items_of(I, st, y)
+    if xs is None:
+        xs = [None] * len(ys)
     return {'#iter': 'seq', 'items': tuple(zip(xs, ys)), 'pos': 0}
 
 
